@@ -217,7 +217,7 @@ Q q_ct_c() { Pre s = mk(); CH c = nd_ch(); vf_assert(k_ct_c(s.o, c) == (HS.find(
 Q q_ct_cs() { Pre s = mk(); CH* q = symz(M_); vf_assert(k_ct_cs(s.o, q) == (HS.find(q) != npos), "contains(cstr) == std"); keep(s, N_); }
 
 // replace: std semantics (pos <= size(); count clamps to size()-pos; the size changes by len2 - count)
-Q q_repl_pcs() { Pre s = mk(); Pre t = mk_other(); sz pos = vf_nd_u64(), c = vf_nd_u64(); vf_assume(pos <= N_); VF_KNOWN(C04_replace_keeps_size, mn(c, N_ - pos) != M_); CHK_KNOWN(C04_replace_contract, pos + c >= N_ || pos + c < pos); RET(k_repl_pcs(s.o, pos, c, t.o), s.o); post(s.o, m_replace<CH, CAP>(s.p, N_, pos, c, t.p, M_)); keep(t, M_); }
+Q q_repl_pcs() { Pre s = mk(); Pre t = mk_other(); sz pos = vf_nd_u64(), c = vf_nd_u64(); vf_assume(pos <= N_); VF_KNOWN(C04_replace_keeps_size, mn(c, N_ - pos) != M_ || c > CAP + 1 - pos /* forms data()+pos+count unclamped: past the buffer */); CHK_KNOWN(C04_replace_contract, pos + c >= N_ || pos + c < pos); RET(k_repl_pcs(s.o, pos, c, t.o), s.o); post(s.o, m_replace<CH, CAP>(s.p, N_, pos, c, t.p, M_)); keep(t, M_); }
 Q q_repl_its() { Pre s = mk(); Pre t = mk_other(); sz f = vf_nd_u64(), l = vf_nd_u64(); vf_assume(f <= l && l <= N_); VF_KNOWN(C04_replace_keeps_size, l - f != M_); RET(k_repl_its(s.o, f, l, t.o), s.o); post(s.o, m_replace<CH, CAP>(s.p, N_, f, l - f, t.p, M_)); keep(t, M_); }
 Q q_repl_pcspc() { Pre s = mk(); Pre t = mk_other(); sz pos = vf_nd_u64(), c = vf_nd_u64(), p2 = vf_nd_u64(), c2 = vf_nd_u64(); vf_assume(pos <= N_ && p2 <= M_); VF_KNOWN(C04_replace_keeps_size, mn(c, N_ - pos) != mn(c2, M_ - p2) || pos + c < pos || p2 + c2 < p2); CHK_KNOWN(C04_replace_contract, pos >= N_ || p2 >= M_); RET(k_repl_pcspc(s.o, pos, c, t.o, p2, c2), s.o); post(s.o, m_replace<CH, CAP>(s.p, N_, pos, c, t.p + p2, mn(c2, M_ - p2))); keep(t, M_); }
 Q q_repl_pcsp() { Pre s = mk(); Pre t = mk_other(); sz pos = vf_nd_u64(), c = vf_nd_u64(), p2 = vf_nd_u64(); vf_assume(pos <= N_ && p2 <= M_); VF_KNOWN(C04_replace_keeps_size, mn(c, N_ - pos) != M_ - p2 || pos + c < pos || p2 > 0); CHK_KNOWN(C04_replace_contract, pos >= N_ || p2 >= M_); RET(k_repl_pcsp(s.o, pos, c, t.o, p2), s.o); post(s.o, m_replace<CH, CAP>(s.p, N_, pos, c, t.p + p2, M_ - p2)); keep(t, M_); }
